@@ -177,6 +177,8 @@ def _cond_key(d):
                     if c[0] == "const" and "castling" in show(o):
                         if o[0] == "bin" and o[1] == "Shr" and o[3][0] == "const" and c[1] == 1:
                             return ("right", o[3][1]), d[1] == "Ne"
+                        if c[1] in (1, 2, 4, 8) and show(o).rstrip(")").endswith(("castling", "castling.0")):
+                            return ("right", c[1].bit_length() - 1), d[1] == "Ne"      # `(rights & (1 << k)) != 0` is the same test
                         return ("anyright", c[1]), d[1] == "Ne"
                     if c[0] == "const" and show(o).endswith(".all"):
                         return ("empty", c[1]), d[1] == "Eq"
